@@ -40,7 +40,7 @@ def main():
     out = ['# Seeded changes (written by independent sub-agents; confirmed and run here by tools_seeded.py)', '',
            'Each directory holds patch.diff (never committed to /repo), demo.py (exits 0 on the unchanged tree, non-zero with the',
            'change), notes.md (the sub-agent\'s description) and meta.json (suite result with the change, demo results, the',
-           'registered quick check\'s exit code and VIOLATION lines when run against the change).  `<id>-N` = round 1, `<id>-rN` = round 2.', '',
+           'registered quick check\'s exit code and VIOLATION lines when run against the change).  `<id>-N` = round 1, `<id>-rN` = round 2, `<id>-sN` = round 3 (a `check_cmd` with `--only <harness>` means the re-run after strengthening selected that harness of the quick check).', '',
            '| seed | file(s) | change | quick check | wall s |', '|---|---|---|---|---|']
     for sid, files, title, verdict, wall, at in rows:
         out.append('| %s | %s | %s | %s | %s |' % (sid, files, title.replace('|', '/'), verdict, wall))
